@@ -63,7 +63,15 @@ func (pub *Pubkey) SetHexString(s string) error {
 	}
 	buf := s[len(PREFIX):]
 
-	pub.value.Unmarshal(common.Hex2Bytes(buf))
+	b := common.Hex2Bytes(buf)
+	if len(b) == 0 {
+		pub.value = bn_curve.G2{}
+		return nil
+	}
+	if err := pub.Deserialize(b); err != nil {
+		pub.value = bn_curve.G2{}
+		return err
+	}
 	return nil
 }
 
